@@ -176,6 +176,10 @@ class FieldData:
   def _set_existing_field(self, fieldname, value, set_reference = False):
     renaming_connected = False
     new_datatype = None
+    if value is None and fieldname in self.positional_fieldnames:
+      # (None removes a tag; a positional field cannot be removed)
+      raise gfapy.TypeError(
+        "The positional field '{}' cannot be set to None".format(fieldname))
     if value is not None:
       if self._field_datatype(fieldname) is None:
         # (a tag without datatype, e.g. deleted before: the default one for
